@@ -53,6 +53,10 @@ Step(ev) ==
      ELSE /\ LET m == CHOOSE x \in net : x.to = ev.to /\ x.seq = ev.seq IN
                IF ev.a = "deliver" THEN Deliver(m) ELSE (Apply(m.to, m.rv) /\ UNCHANGED <<net, ncmds, ndup, nsent, nae>>)
           /\ UNCHANGED <<run, kinds>> /\ Judge(ev)
+  [] ev.a = "nodepair" ->      \* node level: a write accepted by A and delivered to B is served by both alike (any key name)
+     /\ Skip
+     /\ (IF ev.a_get # ev.b_get \/ ev.a_hget # ev.b_hget \/ ev.deltas = 0
+         THEN Verdict("two nodes serve different values for a key although its update was delivered") ELSE TRUE)
   [] ev.a = "ae" ->
      IF "skipped" \in DOMAIN ev THEN Skip
      ELSE IF IsNone(rs[ev.from]) THEN Skip /\ Verdict("anti-entropy from a node the specification holds empty")
